@@ -52,8 +52,8 @@ PROPS = {
                      "response controls and extended-response name/value as seen through real operations are checked in the connection-level lane of this property (resp)"],
     ),
     "C08": dict(
-        groups=[("filter", 20000, 1500000)],
-        exact_lanes=["filter"],
+        groups=[("filter", 20000, 1500000), ("ctlfilter", 40, 400)],
+        exact_lanes=["filter", "ctl"],
         rule="all strings of length <=2 and a strided sample (quick) / larger sample (thorough) of lengths 3-5 over the 21-symbol alphabet ()&|!=*\\:;.-~<>adn02f and lengths 3-8 over ()a=*\\; "
              "rendered filter trees (depth<=3, every item kind, all six extensible shapes, rule names dn/dnMatch/dn-x, options, both hex cases, sloppy escaping) "
              "with single insert/delete mutations; random bytes; recorded witnesses. non-trivial = distinct string the library accepts",
